@@ -461,62 +461,75 @@ Definition pv_str (v : val) : name :=
 (* every row with its group key, its pivot value and the value of every aggregate's argument *)
 Record arow := mkArow { ar_key : list val; ar_pv : val; ar_args : list val }.
 
+(* names of the statistics columns as InternalGroupedDataFrame.agg builds the SCHEMA *)
+Definition stat_names_schema (pvals : option (list val)) (aggs : list agg) : list name :=
+  match pvals with
+  | None => map agg_str aggs
+  | Some vs => if Nat.eqb (length aggs) 1 then map pv_str vs
+               else flat_map (fun pv => map (fun a => pv_str pv ++ [95%N] ++ agg_str a) aggs) vs
+  end.
+(* names as get_pivoted_stats / str(stat) build them for every ROW (alias(pivot_value) must be a str) *)
+Definition stat_name_row (single : bool) (cell : option val) (a : agg) : res name :=
+  match cell with
+  | None => Ok (agg_str a)
+  | Some pv => if single then match pv with VStr s => Ok s | _ => Err "TypeError" end
+               else Ok (pv_str pv ++ [95%N] ++ agg_str a)
+  end.
+Definition pivot_cells (pvals : option (list val)) : list (option val) :=
+  match pvals with None => [None] | Some vs => map Some vs end.
+
+(* GroupedData.pivot: values given, or sorted(collect_set(pivot_col)) over the whole frame *)
+Definition pivot_values (f : frame) (pivot : option (name * option (list val))) : res (option (list val)) :=
+  match pivot with
+  | None => Ok None
+  | Some (_, Some vs) => Ok (Some vs)
+  | Some (pc, None) =>
+      do vs <- mapM (fun r => eval (fields f) r (ECol pc)) (rows f);
+      match rows f with
+      | [] => Err "IndexError"       (* select(collect_set(..)).collect()[0] on no row *)
+      | _ => Ok (Some (map VInt (fold_right insert_z [] (ints_of (dedup_vals [] vs)))))
+      end
+  end.
+
+(* GroupedStats.merge for one row *)
+Definition agg_row (f : frame) (keys : list expr) (pivot : option (name * option (list val)))
+           (pvals : option (list val)) (aggs : list agg) (r : row) : res arow :=
+  do k <- mapM (eval (fields f) r) keys;
+  do pv <- match pivot with
+           | Some (pc, _) => eval (fields f) r (ECol pc)
+           | None => Ok VNone end;
+  do args <- (if match pvals with
+                 | None => true
+                 | Some vs => existsb (val_eqb pv) vs end
+              then mapM (agg_arg (fields f) r) aggs
+              else Ok (map (fun _ => VNone) aggs));
+  Ok (mkArow k pv args).
+
+(* the output Row of one group *)
+Definition group_row (keys : list expr) (pvals : option (list val)) (aggs : list agg)
+           (ars : list arow) (k : list val) : res row :=
+  let members := filter (fun ar => vals_eqb k (ar_key ar)) ars in
+  let single := Nat.eqb (length aggs) 1 in
+  do stats <- mapM (fun cell =>
+                let ms := match cell with
+                          | None => members
+                          | Some pv => filter (fun ar => val_eqb (ar_pv ar) pv) members end in
+                mapM (fun ia => do nm <- stat_name_row single cell (snd ia);
+                                Ok (nm, agg_value (a_fn (snd ia))
+                                          (map (fun ar => nth (fst ia) (ar_args ar) VNone) ms)))
+                     (combine (seq 0 (length aggs)) aggs)) (pivot_cells pvals);
+  Ok (row_of_pairs (combine (map expr_str keys) k ++ concat stats)).
+
 Definition grouped_agg (f : frame) (keys : list expr)
            (pivot : option (name * option (list val))) (aggs : list agg) : res pre :=
   match aggs with
   | [] => Err "ValueError"
   | _ =>
-    (* GroupedData.pivot: values given, or sorted(collect_set(pivot_col)) over the whole frame *)
-    do pvals <- match pivot with
-                | None => Ok None
-                | Some (_, Some vs) => Ok (Some vs)
-                | Some (pc, None) =>
-                    do vs <- mapM (fun r => eval (fields f) r (ECol pc)) (rows f);
-                    match rows f with
-                    | [] => Err "IndexError"       (* select(collect_set(..)).collect()[0] on no row *)
-                    | _ => Ok (Some (map VInt (fold_right insert_z [] (ints_of (dedup_vals [] vs)))))
-                    end
-                end;
+    do pvals <- pivot_values f pivot;
     do gfs <- mapM (grp_fields f) keys;
-    do ars <- mapM (fun r => do k <- mapM (eval (fields f) r) keys;
-                             do pv <- match pivot with
-                                      | Some (pc, _) => eval (fields f) r (ECol pc)
-                                      | None => Ok VNone end;
-                             do args <- (if match pvals with
-                                            | None => true
-                                            | Some vs => existsb (val_eqb pv) vs end
-                                         then mapM (agg_arg (fields f) r) aggs
-                                         else Ok (map (fun _ => VNone) aggs));
-                             Ok (mkArow k pv args)) (rows f);
-    let gkeys := group_keys [] (map ar_key ars) in
-    let cells := match pvals with None => [None] | Some vs => map Some vs end in
-    let single := Nat.eqb (length aggs) 1 in
-    (* names of the statistics columns as InternalGroupedDataFrame.agg builds the SCHEMA *)
-    let stat_names_schema :=
-        match pvals with
-        | None => map agg_str aggs
-        | Some vs => if single then map pv_str vs
-                     else flat_map (fun pv => map (fun a => pv_str pv ++ [95%N] ++ agg_str a) aggs) vs
-        end in
-    (* names as get_pivoted_stats / str(stat) build them for every ROW *)
-    let stat_name_row (cell : option val) (a : agg) : res name :=
-        match cell with
-        | None => Ok (agg_str a)
-        | Some pv => if single then match pv with VStr s => Ok s | _ => Err "TypeError" end
-                     else Ok (pv_str pv ++ [95%N] ++ agg_str a)
-        end in
-    do rs <- mapM (fun k =>
-               let members := filter (fun ar => vals_eqb k (ar_key ar)) ars in
-               do stats <- mapM (fun cell =>
-                             let ms := match cell with
-                                       | None => members
-                                       | Some pv => filter (fun ar => val_eqb (ar_pv ar) pv) members end in
-                             mapM (fun ia => do nm <- stat_name_row cell (snd ia);
-                                             Ok (nm, agg_value (a_fn (snd ia))
-                                                       (map (fun ar => nth (fst ia) (ar_args ar) VNone) ms)))
-                                  (combine (seq 0 (length aggs)) aggs)) cells;
-               Ok (row_of_pairs (combine (map expr_str keys) k ++ concat stats))) gkeys;
-    Ok (struct_of (concat gfs ++ map PNew stat_names_schema) rs (ford f) (fval f))
+    do ars <- mapM (agg_row f keys pivot pvals aggs) (rows f);
+    do rs <- mapM (group_row keys pvals aggs ars) (group_keys [] (map ar_key ars));
+    Ok (struct_of (concat gfs ++ map PNew (stat_names_schema pvals aggs)) rs (ford f) (fval f))
   end.
 
 (* ---------- sort / limit / distinct / sample / repartition ---------- *)
